@@ -271,6 +271,8 @@ def c11(prop, pool, verdict, tier, seed):
         rp = write_replay(prop, 'dispatch-' + f['clause'], {'kind': 'stmt-dispatch', 'property': prop,
                                                              'obligation': 'AST2SCFGTransformer.handle_ast_node::' + f['clause'], 'detail': f})
         verdict.violation(rp)
+    for u in e3.get('undecided', []):
+        verdict.undecided.append('obligation=AST2SCFGTransformer.' + u)
     d = prop_c11.run(pool, tier, seed)
     by = {}
     for f in d['fails']:
@@ -283,7 +285,7 @@ def c11(prop, pool, verdict, tier, seed):
                         'isinstance(node, ast.X) tests ending in `raise NotImplementedError`, and evaluated against the real class lattice for EVERY subclass of ast.stmt '
                         'of the running interpreter; every compound handler hands every statement-list field to codegen unconditionally (structural descent), which with '
                         'structural induction over the tree gives "at any nesting depth" (the induction is stated, not mechanised); each class is also executed on the real '
-                        'dispatcher. Bounded: the placement matrix (statement kind x 9 structural positions) and non-function inputs run through AST2SCFG.')
+                        'dispatcher. Bounded: the placement matrix (statement kind x 13 structural positions) and non-function inputs run through AST2SCFG.')
     cov['obligations'] += e3['obligations']
     cov['discharged'] += e3['discharged']
     cov['finite_domain'] = {'domain': e3['domain'], 'python': e3['python'], 'backend': 'finite-enumeration', 'obligations': e3['obligations']}
